@@ -185,13 +185,28 @@ fn check_label(name: &str, other: &str, n2: u32) -> Result<(), Failure> {
         }
     }
     // binary header with duplicate / descending ids
-    for (a, b) in [(id, id), (id.max(1), id.max(1) - 1)] {
-        let mut m = b"DIDL\x01\x6c\x02".to_vec();
+    let mut pairs: Vec<(u8, u32, u32)> = vec![];
+    for code in [0x6cu8, 0x6b] {
+        for x in [id, n2, u32::MAX, u32::MAX - 1, 0, 1] {
+            pairs.push((code, x, x));
+            if x > 0 {
+                pairs.push((code, x, x - 1));
+            }
+        }
+    }
+    for (code, a, b) in pairs {
+        let mut m = b"DIDL\x01".to_vec();
+        m.extend([code, 2]);
         put_uleb(&mut m, a as u64);
         m.push(0x7d);
         put_uleb(&mut m, b as u64);
         m.push(0x7d);
-        m.extend([1, 0, 1, 2]);
+        // one argument of that type: a record holds both fields, a variant selects case 0
+        if code == 0x6c {
+            m.extend([1, 0, 1, 2]);
+        } else {
+            m.extend([1, 0, 0, 1]);
+        }
         debug_assert!(parse_header(&m).is_err());
         if g!("from_bytes", IDLArgs::from_bytes(&m)).is_ok() {
             return Err(f("binary-header:unsorted-or-duplicate-ids-accepted", hex::encode(&m)));
